@@ -502,7 +502,7 @@ _SECOND_REVIEW = {
     "C12": "device think times of seconds; commands of kilobytes.",
     "C13": "from-file lines over 64 KiB and remark lines; lists of 9-14 failing commands; a second send on the same driver with its own (or no) operation-level list.",
     "C14": "IPv6 loopback; host given by name; known-hosts file gone at connect time; re-open of the same driver after the file changed; passphrase protected keys.",
-    "C15": "one think time of the peer of a tenth or a thirty-second of the socket timeout per case.",
+    "C15": "think times of the peer of a tenth / a thirty-second of the socket timeout were tried and withdrawn again (third review): the statement names no figure for the pause a library has to tolerate between two segments of one opening, so gaps stay at 4 ms or less with socket timeouts of 200 ms and more.",
     "C16": "crypto/ssh sessions with a 1 s socket timeout and a 1.3 s think time of the peer; a sync marker arriving without its first byte is a failure for every flavour.",
     "C17": "variants are judged through the driver they yield (failure strings, levels, default level, what open and close write), not only through the merged struct.",
     "C18": "callbacks without a function; trigger / not-contains texts with outer blanks; a not-contains text early in the dialogue; callbacks that keep the output and are neither once nor complete are made once (known finding keep-output-reruns-forever); no timing demand.",
